@@ -13,6 +13,9 @@ sys.path.insert(0, HERE)
 VERIF = os.path.dirname(HERE)
 
 PENDING = {}
+# Checks the coordinator has reviewed (several seeds clean on the unchanged tree, seeded defects tried).
+# Anything else stays under not_applicable until reviewed.
+APPROVED = [l.strip() for l in open(os.path.join(os.path.dirname(HERE), "APPROVED_CHECKS.txt")) if l.strip() and not l.startswith("#")]
 
 
 def main():
@@ -20,7 +23,7 @@ def main():
     checks, na, engines = [], [], []
     for pid in props:
         path = os.path.join(HERE, "checks", pid.lower() + ".py")
-        if not os.path.exists(path):
+        if not os.path.exists(path) or pid not in APPROVED:
             na.append({"property_id": pid, "reason": PENDING.get(pid, "check not built yet in this round (design in DESIGN.md section 4); not claimed")})
             continue
         mod = importlib.import_module("checks." + pid.lower())
